@@ -15,6 +15,7 @@ PROP_MODULES = {
     "C13": ["Tramp.Props.C13", "Tramp.Props.C18"],
     "C15": ["Tramp.Props.C15"],
     "C16": ["Tramp.Props.C16"],
+    "C20": ["Tramp.Props.C20"],
 }
 
 # property -> theorem names (in namespace Tramp) = the proof obligations
@@ -37,6 +38,7 @@ OBLIGATIONS = {
     ],
     "C15": ["pstep_inv", "c15_some", "c15_none", "c15_err_only_on_fault", "c15_codes", "c15_pinned_counterexample"],
     "C16": ["pstep_inv", "c16_ok", "c16_err", "c16_pinned_counterexample"],
+    "C20": ["c20_max", "c20_monotone", "c20_poll_catches_up", "c20_serve_truthful", "c20_timer_armed", "c20_timer_fires"],
 }
 
 # suite -> harness parameters
@@ -45,6 +47,7 @@ SUITES = {
     "fee": {"profiles": ["dev", "wrapping"]},
     "classify": {"profiles": ["dev"]},
     "provider": {"profiles": ["dev"]},
+    "height": {"profiles": ["dev"]},
 }
 
 # property -> suites whose correspondence it depends on
@@ -55,6 +58,7 @@ PROP_SUITES = {
     "C13": ["classify", "tlv"],
     "C15": ["provider"],
     "C16": ["provider"],
+    "C20": ["height"],
 }
 
 # protocol op -> properties that a model/implementation divergence on that op un-proves
@@ -64,6 +68,7 @@ OP_PROPS = {
     "get": ["C13", "C10"], "rm": ["C13"],
     "fs": ["C12", "C03", "C06", "C07", "C04"], "ef": ["C12", "C11", "C06"],
     "cl": ["C10", "C13", "C01", "C06"],
+    "hw": ["C20", "C04"],
     "pw": ["C15", "C16", "C02", "C05", "C08"], "pa": ["C16", "C19", "C03", "C04"],
 }
 
